@@ -70,6 +70,8 @@ pub fn verif_estimator_bounds(
     out
 }
 pub use self::union::CpcUnion;
+#[cfg(feature = "verif-hooks")]
+pub use self::union::VerifCpcUnionState;
 pub use self::wrapper::CpcWrapper;
 
 /// Default log2 of K.
